@@ -613,6 +613,8 @@ class AggTable:
         return self
 
     def __getitem__(self, idx):
+        if isinstance(idx, numpy.ndarray):
+            idx = SymArray([int(x) for x in idx], int)
         if not isinstance(idx, SymArray):
             idx = SymArray([idx])
         vals = list(self.a.e) if isinstance(self.a, SymArray) else list(self.a)
@@ -665,7 +667,9 @@ def m_aggregate(group_idx, a, func="sum", fill_value=0, **kw):
     if kw:
         raise Unsupported(f"aggregate kwargs {list(kw)}")
     if not isinstance(a, SymArray):
-        a = SymArray(list(a))
+        a = SymArray([x.item() if hasattr(x, "item") else x for x in a])
+    if not isinstance(group_idx, SymArray):
+        group_idx = SymArray([int(x) for x in group_idx], int)
     return AggTable(group_idx, a, func, fill_value)
 
 
